@@ -46,15 +46,28 @@ Proof.
 Qed.
 
 Definition pos_le (n : nat) (e : xpe) : Prop := match x_pos e with Some p => p <= n | None => True end.
-Definition unguarded (c : site) : Prop := c <> S_guarded_index /\ c <> S_guarded_assert.
+(* crash sites not excluded by proof.  Excluded (proved unreachable below): the subscripts / asserts that
+   follow a pattern match, the three dictionary lookups whose key is always present, tokens[0] of the
+   expanded path, tokens[0] of the node test, tokens[-1] of the predicate loop.
+   Still allowed although meant to be unreachable (they need the invariant "a group is always enclosed
+   by its bracket tokens", not proved): S_path_not_implemented, S_step_last_not_token, S_step_pi_arg_index,
+   S_step_pi_arg_not_token, S_step_test_not_token, S_step_pred_last_not_token, S_expr_first_not_token. *)
+Definition site_possible (c : site) : bool :=
+  match c with
+  | S_guarded_index | S_guarded_assert | S_group_complement | S_step_operators_lookup
+  | S_expr_operators_lookup | S_path_first | S_step_pred_last_index | S_step_test_index => false
+  | _ => true
+  end.
+Definition unguarded (c : site) : Prop := site_possible c = true.
 Definition good {A} (n : nat) (r : pres A) : Prop := rsat (pos_le n) unguarded r.
 
 Lemma good_at_position {A} n p (m : pres A) : p <= n -> good n m -> good n (at_position p m).
 Proof. intros Hp. destruct m; cbn; auto. Qed.
 
-Lemma unguarded_any c : site_id c <> 20%N -> site_id c <> 21%N -> unguarded c.
-Proof. intros A B. split; intros ->; cbn in *; congruence. Qed.
-Ltac ung := (split; discriminate).
+Ltac ung := reflexivity.
+
+Lemma tkind_eqb_eq a b : tkind_eqb a b = true -> a = b.
+Proof. destruct a, b; cbn; intros H; try reflexivity; discriminate. Qed.
 
 (* ---- sizes and "all tokens satisfy P" on token trees ---- *)
 Lemma tsize_TG l : tsize (TG l) = lsize l.
@@ -193,6 +206,24 @@ Proof.
   intros H; inversion H; subst. apply find_token_spec in E. destruct E as [_ E].
   rewrite Nat.sub_0_r in E. exact E.
 Qed.
+Lemma find_token_str kd s : forall tokens i0 i t, find_token kd s tokens i0 = Some (i, t) -> t_str t = s.
+Proof.
+  induction tokens as [|x r IH]; intros i0 i t H; cbn in H; [discriminate|].
+  destruct x as [y|g]; [|eapply IH; exact H].
+  destruct (tkind_eqb (t_kind y) kd && str_eqb (t_str y) s) eqn:E; [|eapply IH; exact H].
+  inversion H; subst. apply andb_true_iff in E. destruct E as [_ E]. apply str_eqb_eq in E. exact E.
+Qed.
+Lemma find_operator_lookup : forall ops tokens i t,
+  forallb (fun o => match operators_lookup (snd o) with Some _ => true | None => false end) ops = true ->
+  find_operator ops tokens = Some (i, t) -> operators_lookup (t_str t) <> None.
+Proof.
+  induction ops as [|[kd s] r IH]; intros tokens i t Hall H; cbn in H; [discriminate|].
+  cbn in Hall. apply andb_true_iff in Hall. destruct Hall as [H1 H2].
+  destruct (find_token kd s tokens 0) as [[j u]|] eqn:E.
+  - inversion H; subst. apply find_token_str in E. rewrite E. destruct (operators_lookup s); [discriminate|discriminate].
+  - eapply IH; eassumption.
+Qed.
+
 Lemma nth_split_size : forall tokens i x, nth_error tokens i = Some x ->
   lsize tokens = lsize (firstn i tokens) + tsize x + lsize (skipn (S i) tokens).
 Proof.
@@ -237,12 +268,13 @@ Proof.
     apply Hrec; [|exact Hg]. cbn [lsize]. rewrite tsize_TG. cbn [tsize]. lia. }
   destruct (find_operator operator_order tokens) as [[i token]|] eqn:F.
   - destruct (Nat.ltb 0 i && Nat.ltb i (length tokens - 1)); [|cbn; ung].
+    pose proof (find_operator_lookup _ _ _ _ (proj1 operator_order_in_operators) F) as Lk.
     apply find_operator_spec in F. pose proof (nth_split_size _ _ _ F) as Sz. cbn [tsize] in Sz.
     destruct (lall_split (inb n) tokens i Hall) as [Hl _].
     destruct (lall_split (inb n) tokens (S i) Hall) as [_ Hr].
     apply rsat_bind; [apply Hrec; [lia|exact Hl]|]. intros left _.
     apply rsat_bind; [apply Hrec; [lia|exact Hr]|]. intros right _.
-    cbv zeta. destruct (operators_lookup (t_str token)); cbn; [exact I|ung].
+    cbv zeta. destruct (operators_lookup (t_str token)); [exact I|congruence].
   - destruct tokens as [|[t0|g] r]; cbn; try ung.
     cbn in Hall. unfold inb in Hall. unfold pos_le; cbn. lia.
 Qed.
@@ -285,31 +317,39 @@ Proof. unfold base_of. destruct (bottom_cons o r) as [b ->]. reflexivity. Qed.
 Lemma base_of_push x o r i : base_of (x :: o :: r) i = base_of (o :: r) i.
 Proof. reflexivity. Qed.
 
+Lemma opener_has_complement st : is_opener st = true -> assoc_kind (t_kind st) complementing <> None.
+Proof.
+  unfold is_opener. intros H. apply orb_true_iff in H. destruct H as [H|H]; apply tkind_eqb_eq in H; rewrite H.
+  - rewrite (proj1 openers_have_complements). discriminate.
+  - rewrite (proj2 openers_have_complements). discriminate.
+Qed.
+
 Lemma group_loop_spec n rec tokens :
   Forall (real_token n) tokens ->
   (forall l, length l < length tokens -> Forall (real_token n) l -> gspec n (length l) (rec l)) ->
   forall rest i result openers,
     i + length rest = length tokens ->
     Forall (real_token n) rest ->
-    Forall (fun o => fst o < i /\ real_token n (snd o)) openers ->
+    Forall (fun o => fst o < i /\ real_token n (snd o) /\ is_opener (snd o) = true) openers ->
     lall (real_token n) result -> lsize result <= base_of openers i ->
     gspec n (length tokens) (group_loop rec tokens rest i result openers).
 Proof.
   intros Htokens Hrec. induction rest as [|tok rest IH]; intros i result openers Hi Hrest Hop Hres Hsz.
   - cbn [group_loop]. destruct openers as [|[sp st] ops].
     + cbn. unfold base_of in Hsz; cbn in Hsz. cbn in Hi. split; [exact Hres|lia].
-    + inversion Hop as [|x y [_ Hreal] _]; subst. cbn. unfold pos_le; cbn. apply real_pos_le, Hreal.
+    + inversion Hop as [|x y [_ [Hreal _]] _]; subst. cbn. unfold pos_le; cbn. apply real_pos_le, Hreal.
   - inversion Hrest as [|x y Htok Hrest']; subst. cbn [length] in Hi.
-    cbn [group_loop]. destruct (is_opener tok).
+    cbn [group_loop]. destruct (is_opener tok) eqn:Eop.
     { apply IH; [lia|exact Hrest'| | exact Hres|].
-      - constructor; [cbn; split; [lia|exact Htok]|].
+      - constructor; [cbn; split; [lia|split; [exact Htok|exact Eop]]|].
         eapply Forall_impl; [|exact Hop]. intros o [Ha Hb]. split; [lia|exact Hb].
       - destruct openers as [|o r]; [exact Hsz|].
         rewrite base_of_push, (base_of_cons o r (S i) i). exact Hsz. }
     destruct (is_closer tok).
     { destruct openers as [|[sp st] ops]; [cbn; ung|].
-      inversion Hop as [|x y [Hsp Hst] Hops]; subst. cbn [fst snd] in *.
-      destruct (assoc_kind (t_kind st) complementing); [|cbn; ung].
+      inversion Hop as [|x y [Hsp [Hst Hso]] Hops]; subst. cbn [fst snd] in *.
+      pose proof (opener_has_complement st Hso) as Hcomp.
+      destruct (assoc_kind (t_kind st) complementing); [|congruence].
       destruct (negb (tkind_eqb (t_kind tok) t)).
       { cbn. unfold pos_le; cbn. apply real_pos_le, Htok. }
       destruct ops as [|o r].
@@ -408,7 +448,7 @@ Qed.
 Lemma number_predicate_good n p : good n (number_predicate p).
 Proof.
   unfold number_predicate. destruct p as [[s|k]| | | |]; [exact I| |exact I|exact I|exact I|exact I].
-  destruct (operators_lookup s_equals); [|cbn; ung].
+  rewrite (proj2 operator_order_in_operators).
   apply rsat_bind; [apply function_ctor_good|]. intros; exact I.
 Qed.
 
@@ -449,7 +489,8 @@ Proof.
       apply rsat_bind; [apply number_predicate_good|]. intros p' _.
       apply rsat_bind; [apply IH; [cbn in Hk; lia|split; assumption]|]. intros; exact I.
     + destruct tk as [|x0 r0]; [exact I|].
-      destruct (last (map Some (x0 :: r0)) None) as [[t|g]|] eqn:L; try (cbn; ung).
+      destruct (last (map Some (x0 :: r0)) None) as [[t|g]|] eqn:L; try (cbn; ung);
+        [|exfalso; revert L; clear; revert x0; induction r0 as [|y r IH]; intros x0; [discriminate|apply IH]].
       apply last_some_In in L. destruct Hinv as [H1 _]. pose proof (lall_In _ _ _ H1 L) as Ht. cbn in Ht.
       unfold pos_le, inb in *; cbn. lia.
 Qed.
@@ -493,13 +534,13 @@ Proof.
     + split; [exact Hinv|auto].
 Qed.
 
-Lemma step_node_test_spec n m prefix tokens2 : sinv n m tokens2 ->
+Lemma step_node_test_spec n m prefix tokens2 : sinv n m tokens2 -> tokens2 <> [] ->
   match step_node_test prefix tokens2 with
   | POk (_, t3) => sinv n m t3
   | r => good n r
   end.
 Proof.
-  intros Hinv. unfold step_node_test.
+  intros Hinv Hne. unfold step_node_test.
   destruct (initial_tokens_match tokens2 [S_ NAME; S_ OPEN_PARENS; None; S_ CLOSE_PARENS]) eqn:E1.
   { apply initial_match_shape in E1. shape E1. cbn [nth_tok nth_group nth_error pbind].
     destruct (negb _); [cbn; ung|]. destruct g as [|[x|g'] gr]; cbn; try ung.
@@ -514,7 +555,7 @@ Proof.
   destruct (initial_tokens_match tokens2 [S_ STRUDEL; S_ NAME]) eqn:E5.
   { apply initial_match_shape in E5. shape E5. cbn. destruct Hinv as [H1 _]. cbn in H1.
     unfold pos_le, inb in *; cbn. lia. }
-  destruct tokens2 as [|[t|g] r]; cbn; try ung.
+  destruct tokens2 as [|[t|g] r]; [congruence| |cbn; ung].
   destruct Hinv as [H1 _]. cbn in H1. unfold pos_le, inb in *; cbn. lia.
 Qed.
 
@@ -532,8 +573,9 @@ Proof.
     { destruct A as [->|[a [b [-> _]]]]; [exact Hinv|apply (sinv_skipn n m _ 2 Hinv)]. }
     pose proof (step_prefix_spec n m t1 Hinv1) as B.
     destruct (step_prefix t1) as [[pf t2]|e|c|]; cbn [pbind fst snd]; try exact B.
-    destruct B as [Hinv2 _].
-    pose proof (step_node_test_spec n m pf t2 Hinv2) as C.
+    destruct B as [Hinv2 Hne2].
+    assert (Hne1 : t1 <> []) by (destruct t1; [discriminate|discriminate]).
+    pose proof (step_node_test_spec n m pf t2 Hinv2 (Hne2 Hne1)) as C.
     destruct (step_node_test pf t2) as [[nt t3]|e|c|]; cbn [pbind fst snd]; try exact C.
     apply rsat_bind; [eapply parse_predicates_good; [exact Hpe|apply Nat.le_refl|exact C]|]. intros; exact I.
 Qed.
@@ -622,14 +664,26 @@ Proof.
   split; [apply lall_of_In; intros x Hx; apply K, Hx|apply Forall_forall; intros x Hx; apply K, Hx].
 Qed.
 
+Lemma expansions_nonempty : forallb (fun e => negb (null (snd e))) axis_expansions = true.
+Proof. vm_compute. reflexivity. Qed.
+Lemma expand1_nonempty t : expand1 t <> [].
+Proof.
+  destruct t as [x|g]; cbn [expand1]; [|discriminate].
+  destruct (assoc_kind (t_kind x) axis_expansions) as [l|] eqn:E; [|discriminate].
+  pose proof (assoc_kind_forallb (fun l => negb (null l)) _ _ _ expansions_nonempty E) as H.
+  destruct l; [discriminate|discriminate].
+Qed.
+
 Lemma parse_path_good n m pe tokens :
   pe_ok n m pe -> lall (real_token n) tokens -> Forall (gsz m) tokens -> good n (parse_location_path pe tokens).
 Proof.
-  intros Hpe Hreal Hsz. unfold parse_location_path. destruct (null tokens); [exact I|].
+  intros Hpe Hreal Hsz. unfold parse_location_path. destruct (null tokens) eqn:Nt; [exact I|].
   assert (Hinv : sinv n m (expand_axes tokens)).
   { apply expand_sinv. split; [eapply lall_impl; [apply real_inb|exact Hreal]|exact Hsz]. }
   pose proof (expand_seq_ok n tokens Hreal) as Hseq.
-  destruct (expand_axes tokens) as [|[t0|g] r] eqn:E; try (cbn; ung).
+  destruct (expand_axes tokens) as [|[t0|g] r] eqn:E; [exfalso|idtac|cbn; ung].
+  { destruct tokens as [|t r]; [discriminate|]. unfold expand_axes in E. cbn [flat_map] in E.
+    apply app_eq_nil in E. destruct E as [E _]. exact (expand1_nonempty t E). }
   rewrite <- E in *. apply rsat_bind; [|intros; exact I].
   apply rsat_pmap. intros part Hp. apply parse_step_good with (m := m); [exact Hpe| |].
   - eapply sinv_sub; [|exact Hinv]. intros x Hx. eapply partition_In; eassumption.
